@@ -127,7 +127,7 @@ inductive MutK
   | dirRewind | sockListen | sockConnectRefused | sockClose
   | semOwn | shmOwn | shmbufOwn
   | tlsSet | tlsReplace | tlsGet
-  | mmapFree
+  | mmapFree | loaderSym
   deriving Repr
 
 inductive DeriveK
@@ -235,6 +235,7 @@ def mutRun (k : MutK) (o : Obj) (e : EP) : Option (ResM (Char × Option Obj × E
   | .tlsReplace, .tls t => some do let (c, t') ← tlsReplace t; return (c, some (.tls t'), e)
   | .tlsGet, .tls t => some do let t' ← tlsGet t; return ('S', some (.tls t'), e)
   | .mmapFree, .mmap i len => some do munmap i len len; return ('S', none, e)
+  | .loaderSym, .loader l => some do loaderSym; return ('S', some (.loader l), e)
   | _, _ => none
 
 /-- derivations: (class, the source object afterwards, the new object, error pointer) -/
@@ -518,7 +519,7 @@ def parseCall (toks : List String) : Option Call :=
   | ["tls_get", d] => do some (.mut .tlsGet .tls (← n d) none)
   | ["tls_free", d] => do some (.dtor .tls (← n d))
   | ["loader_new", d, w] => do some (.ctor (.loaderNew (← n w)) (← n d) none)
-  | ["loader_sym", d] => do some (.mut .nop .loader (← n d) none)
+  | ["loader_sym", d] => do some (.mut .loaderSym .loader (← n d) none)
   | ["loader_err", d] => do some (.ctor .loaderErr (← n d) none)
   | ["loader_free", d] => do some (.dtor .loader (← n d))
   | ["mmap_new", d, sz, e] => do some (.ctor (.mmapNew (((← n sz) + 1) * 4096)) (← n d) (← argOpt e))
